@@ -88,11 +88,11 @@ def step (a : AG) : GOp → AG × Bool
   | .clearEdges t =>
     if a.known t then (a.clearS t, true) else (a, false)
   | .addEdgeType t k ns es =>
+    -- the new layer holds exactly the edges of the given graph; the given graph's nodes join the node set
     if (a.kind t).isSome then (a, false) else
-      let a : AG := { a with kind := fun t' => if t' == t then some k else a.kind t' }
-      let a := es.foldl (fun a e => a.putEdge (.one t) e.1 e.2 []) a
-      let a := ns.foldl (fun a v => a.ensureS v []) a
-      (es.foldl (fun a e => (a.ensureS e.1 []).ensureS e.2 []) a, true)
+      ({ a with kind := fun t' => if t' == t then some k else a.kind t',
+                node := fun x => a.node x || ns.contains x || es.any fun e => x == e.1 || x == e.2,
+                edge := fun t' x y => if t' == t then es.any fun e => sameP k x y e.1 e.2 else a.edge t' x y }, true)
   | .removeEdgeType t =>
     if (a.kind t).isSome then
       ({ a with kind := fun t' => if t' == t then none else a.kind t',
